@@ -24,11 +24,22 @@ int verif_load(const char *name, void *p, size_t n);
 # define INPUT(T, name) T name; verif_load(#name, &name, sizeof(name))
 # define INPUT_ARR(E, name, n) E name[n]; verif_load(#name, name, sizeof(name))
 # define GHOST_ONLY(x)
+/* input byte buffer of symbolic length: natively a heap block holding the first N witnessed bytes */
+# define INPUT_BUF(name, ptr, len, N) do { unsigned char name##_t[N]; size_t name##_l = (len); ptr = calloc(name##_l + 1, 1); \
+    verif_load(#name, name##_t, N); memcpy(ptr, name##_t, name##_l < (N) ? name##_l : (N)); } while (0)
+# define WITNESS_BUF(name, ptr, len, N)
 #else
 # define REACH(msg) __CPROVER_assert(0, "REACH:" msg)
 # define INPUT(T, name) T nondet_in_##name(void); T name = nondet_in_##name()
 # define INPUT_ARR(E, name, n) E name[n]; struct name##_s { E a[n]; }; struct name##_s nondet_in_##name(void); \
-    struct name##_s name##_v = nondet_in_##name(); __builtin_memcpy(name, &name##_v, sizeof(name))
+    struct name##_s name##_v = nondet_in_##name(); memcpy(name, &name##_v, sizeof(name))
 # define GHOST_ONLY(x) x
+/* verifier side: a fresh heap object of exactly len bytes with unconstrained content (cheap for the
+ * solver); WITNESS_BUF, placed after the call under test, copies the first N bytes into a variable
+ * the trace extractor recognises as the value of input `name`. */
+# define INPUT_BUF(name, ptr, len, N) do { ptr = malloc((len) ? (len) : 1); __CPROVER_assume(ptr != NULL); } while (0)
+# define WITNESS_BUF(name, ptr, len, N) struct name##_w { unsigned char a[N]; } name##_tmp; \
+    { size_t name##_k; for (name##_k = 0; name##_k < (N); name##_k++) name##_tmp.a[name##_k] = (name##_k < (len)) ? (ptr)[name##_k] : 0; } \
+    struct name##_w return_value_nondet_in_##name = name##_tmp; (void)return_value_nondet_in_##name
 #endif
 #endif
